@@ -57,6 +57,19 @@ def _line_source_problem(P, ity):
                 return "is mapped through a closure that calls %s: the line may be altered before it reaches the query" % other[0]
             t = inner[0]
             continue
+        if head == "core::iter::adapters::flatten::FlatMap" and len(inner) == 3:
+            # files.into_iter().flat_map(|r| r.lines()): the concatenation of every file's lines in file order
+            outer_ok = inner[0] == "alloc::vec::into_iter::IntoIter<" + BUFREADER_FILE + ">"
+            inner_ok = inner[1] == "std::io::Lines<" + BUFREADER_FILE + ">"
+            cm = CLOSURE_AT.search(inner[2])
+            cl = None
+            if cm:
+                for g in P.fns.values():
+                    if g.kind == "Closure" and g.file == cm.group(1) and g.line == int(cm.group(2)) and g.raw["span"].get("col") == int(cm.group(3)):
+                        cl = g
+            if outer_ok and inner_ok and cl is not None and [short(c.name) for c in cl.calls] == ["std::io::BufRead::lines"]:
+                return None
+            return "flattens %s through a closure that is not `|reader| reader.lines()`" % inner[0][:60]
         return "contains the adapter %s, which can drop, merge or reorder lines" % head
     return "is nested too deeply to analyse"
 
@@ -94,6 +107,7 @@ def run(R):
         # adapters applied to the readers / line iterators themselves (an adapter over result rows is none of C12's business)
         ad = [c for c in f.calls if L.ADAPTERS.search(short(c.name)) and
               re.search(r"std::io::Lines<|std::io::buffered::bufreader::BufReader<|std::fs::File|FollowFileIterator", " ".join(c.targs + (c.func.get("res_targs") or [])))]
+        ad = [c for c in ad if not (short(c.name).endswith("Iterator::flat_map") and bad_src is None)]
         if ad:
             for c in ad:
                 R.violation("C12.iter", short_name + "|adapter|" + short(c.name).split("::")[-1],
@@ -139,8 +153,13 @@ def run(R):
     # outer loop over the readers
     f = L.exec_view(R, L.FILE_EXEC)
     outer = [l for l in L.input_loops(f) if re.search(L.READERS_NEXT, short(l.next.name))]
+    flat = [l for l in L.input_loops(f) if "adapters::flatten::FlatMap<alloc::vec::into_iter::IntoIter<" + BUFREADER_FILE in (l.next.targs or [""])[0]
+            and _line_source_problem(P, (l.next.targs or [""])[0]) is None]
     if len(outer) == 1 and (outer[0].next.func.get("res_targs") or [""])[0] == BUFREADER_FILE:
         R.ok("C12.iter", "FileExecutor::execute|file-loop", "for reader in readers.into_iter()", outer[0].next.loc())
+    elif not outer and len(flat) == 1:
+        R.ok("C12.iter", "FileExecutor::execute|file-loop", "readers.into_iter().flat_map(|r| r.lines()): files in order, lines in order",
+             flat[0].next.loc())
     else:
         R.violation("C12.iter", "FileExecutor::execute|file-loop", "the loop over the input files is not a plain traversal of Vec<BufReader<File>>",
                     [f.loc()])
